@@ -1,8 +1,9 @@
 /-
   XotModel.Lemmas.AcceptedWitness — closed witnesses around "accepted ⇒ serialises and reparses
-  deep-equal": the minimal inputs of the known findings (outside `NoReservedDecls` the clause fails in
-  the model), the processing instruction `<?xml` TAB `x?>` (accepted; its serialisation `<?xml x?>` is
-  refused by the tokenizer), and a document inside the guards (namespaces, references, CDATA,
+  deep-equal": the minimal input of the known finding that is still open (the prefix `xml` rebound:
+  outside `NoReservedDecls` the clause fails in the model), the former witnesses that are now REJECTED
+  (reserved declarations, `xmlns:p=""`, the processing-instruction target `xml`), and a document
+  inside the guards (namespaces, references, CDATA,
   comment, PI).  Everything is evaluated through the canonical-rendering theorem of the reference
   tokenizer (`lexDocument_render`) and the explicit builder `buildE`.
 -/
@@ -47,26 +48,79 @@ theorem parseString_render (env : Env) (ts : List Token) (h : LexOK false ts = t
 private def sp (s : String) : StrSpan := ⟨s.toList, 0⟩
 private def nosp : StrSpan := ⟨[], 0⟩
 
-/-- `<a xmlns:p="" p:xmlns="v"/>`: a prefixed undeclaration, and an attribute `xmlns` in no namespace. -/
+/-- `<a xmlns:p="" p:xmlns="v"/>`: a prefixed undeclaration, and an attribute `xmlns` in no namespace
+    (before /repo a5dcf8e accepted, and serialised as `<a xmlns:p="" xmlns="v"/>`: another tree). -/
 def undeclTokens : List Token :=
   [.elementStart nosp (sp "a") nosp, .attribute (sp "xmlns") (sp "p") nosp nosp,
    .attribute (sp "p") (sp "xmlns") (sp "v") nosp, .elementEnd .empty nosp]
 
-/-- Its serialisation `<a xmlns:p="" xmlns="v"/>`. -/
-def undeclTokens' : List Token :=
-  [.elementStart nosp (sp "a") nosp, .attribute (sp "xmlns") (sp "p") nosp nosp,
-   .attribute nosp (sp "xmlns") (sp "v") nosp, .elementEnd .empty nosp]
+/-- `<a xmlns:xmlns="u"/>`: the prefix `xmlns` declared. -/
+def xmlnsPrefixTokens : List Token :=
+  [.elementStart nosp (sp "a") nosp, .attribute (sp "xmlns") (sp "xmlns") (sp "u") nosp, .elementEnd .empty nosp]
 
-/-- `<a xmlns:xml="" xmlns:p="http://www.w3.org/XML/1998/namespace" p:id="i"/>`. -/
+/-- `<a xmlns:p="http://www.w3.org/XML/1998/namespace"/>`: another prefix than `xml` for the XML namespace. -/
+def xmlUriTokens : List Token :=
+  [.elementStart nosp (sp "a") nosp,
+   .attribute (sp "xmlns") (sp "p") (sp "http://www.w3.org/XML/1998/namespace") nosp, .elementEnd .empty nosp]
+
+/-- `<a xmlns="http://www.w3.org/2000/xmlns/"/>`: the xmlns namespace name as default namespace. -/
+def xmlnsUriTokens : List Token :=
+  [.elementStart nosp (sp "a") nosp,
+   .attribute nosp (sp "xmlns") (sp "http://www.w3.org/2000/xmlns/") nosp, .elementEnd .empty nosp]
+
+/-- `<a xmlns:p="http://www.w3.org/2000/xmlns&#x2F;"/>`: the reserved name through a character reference
+    (the test is on the DECODED value). -/
+def xmlnsUriRefTokens : List Token :=
+  [.elementStart nosp (sp "a") nosp,
+   .attribute (sp "xmlns") (sp "p") (sp "http://www.w3.org/2000/xmlns&#x2F;") nosp, .elementEnd .empty nosp]
+
+/-- The error of `parse` on the canonical spelling of `ts` (from `Xot::new()`'s tables). -/
+def rejection (ts : List Token) : Option ParseErr :=
+  match buildE .document (strLen (renderTokens ts)) Env.fresh (placeTokens 0 ts) none with
+  | .err e _ => some e
+  | _ => none
+
+/-- What `rejection` says, on `parseString`. -/
+theorem rejection_spec {ts : List Token} {e : ParseErr} (h1 : LexOK false ts = true) (h : rejection ts = some e) :
+    ∃ env', parseString .document Env.fresh (renderTokens ts) = .err e env' := by
+  unfold rejection at h
+  split at h
+  · rename_i e' env' he
+    simp only [Option.some.injEq] at h
+    subst h
+    exact ⟨env', by rw [parseString_render _ _ h1]; exact he⟩
+  · cases h
+
+theorem undecl_rejected : LexOK false undeclTokens = true ∧
+    rejection undeclTokens = some (.invalidNamespaceDeclaration "xmlns:p".toList ⟨3, 10⟩) := by decide +kernel
+
+theorem reserved_rejected :
+    (LexOK false xmlnsPrefixTokens = true ∧
+      rejection xmlnsPrefixTokens = some (.invalidNamespaceDeclaration "xmlns:xmlns".toList ⟨3, 14⟩)) ∧
+    (LexOK false xmlUriTokens = true ∧
+      rejection xmlUriTokens = some (.invalidNamespaceDeclaration "xmlns:p".toList ⟨3, 10⟩)) ∧
+    (LexOK false xmlnsUriTokens = true ∧
+      rejection xmlnsUriTokens = some (.invalidNamespaceDeclaration "xmlns".toList ⟨3, 8⟩)) ∧
+    (LexOK false xmlnsUriRefTokens = true ∧
+      rejection xmlnsUriRefTokens = some (.invalidNamespaceDeclaration "xmlns:p".toList ⟨3, 10⟩)) := by
+  decide +kernel
+
+/-- `<a xmlns:xml="zzz"><b xmlns:xml="http://www.w3.org/XML/1998/namespace" xml:id="i"/></a>`: the prefix
+    `xml` rebound (still accepted: known finding C03:xml-prefix-rebound-accepted), and bound back to the
+    XML namespace below, with a name in that namespace. -/
 def xmlReboundTokens : List Token :=
-  [.elementStart nosp (sp "a") nosp, .attribute (sp "xmlns") (sp "xml") nosp nosp,
-   .attribute (sp "xmlns") (sp "p") (sp "http://www.w3.org/XML/1998/namespace") nosp,
-   .attribute (sp "p") (sp "id") (sp "i") nosp, .elementEnd .empty nosp]
+  [.elementStart nosp (sp "a") nosp, .attribute (sp "xmlns") (sp "xml") (sp "zzz") nosp, .elementEnd .open nosp,
+   .elementStart nosp (sp "b") nosp,
+   .attribute (sp "xmlns") (sp "xml") (sp "http://www.w3.org/XML/1998/namespace") nosp,
+   .attribute (sp "xml") (sp "id") (sp "i") nosp, .elementEnd .empty nosp,
+   .elementEnd (.close nosp (sp "a")) nosp]
 
-/-- Its serialisation `<a xmlns:xml="" xml:id="i"/>`. -/
+/-- Its serialisation `<a xmlns:xml="zzz"><b xml:id="i"/></a>`: a binding of the XML namespace is never
+    written, so `xml:id` now means `{zzz}id`. -/
 def xmlReboundTokens' : List Token :=
-  [.elementStart nosp (sp "a") nosp, .attribute (sp "xmlns") (sp "xml") nosp nosp,
-   .attribute (sp "xml") (sp "id") (sp "i") nosp, .elementEnd .empty nosp]
+  [.elementStart nosp (sp "a") nosp, .attribute (sp "xmlns") (sp "xml") (sp "zzz") nosp, .elementEnd .open nosp,
+   .elementStart nosp (sp "b") nosp, .attribute (sp "xml") (sp "id") (sp "i") nosp, .elementEnd .empty nosp,
+   .elementEnd (.close nosp (sp "a")) nosp]
 
 /-- The tree is accepted, violates the guard, serialises to the rendering of `ts'`, and that text
     reparses to a tree that is NOT `deep_equal`. -/
@@ -81,9 +135,6 @@ def roundTripBroken (ts ts' : List Token) : Bool :=
      | .ok p' => !deepEqual p'.tree p.tree
      | _ => false)
   | _ => false
-
-theorem undecl_broken : LexOK false undeclTokens = true ∧ LexOK false undeclTokens' = true ∧
-    roundTripBroken undeclTokens undeclTokens' = true := by decide +kernel
 
 theorem xmlRebound_broken : LexOK false xmlReboundTokens = true ∧ LexOK false xmlReboundTokens' = true ∧
     roundTripBroken xmlReboundTokens xmlReboundTokens' = true := by decide +kernel
@@ -112,23 +163,25 @@ theorem roundTripBroken_spec {ts ts' : List Token} (h1 : LexOK false ts = true) 
   · cases h
 
 /-- `<a><?xml` TAB `x?></a>` is no canonical spelling; the tokens the tokenizer returns for it are
-    the tokens of `<a><?xml x?></a>` (positions apart), so the builder's result is computed on these. -/
+    the tokens of `<a><?xml x?></a>` (positions apart: the target at 5..8), so the builder's result is
+    computed on these. -/
 def xmlPiTokens : List Token :=
-  [.elementStart nosp (sp "a") nosp, .elementEnd .open nosp, .pi (sp "xml") (some (sp "x")) nosp,
+  [.elementStart nosp (sp "a") ⟨[], 0⟩, .elementEnd .open ⟨[], 2⟩, .pi ⟨"xml".toList, 5⟩ (some ⟨"x".toList, 9⟩) ⟨[], 3⟩,
+   .elementEnd (.close ⟨[], 14⟩ ⟨"a".toList, 14⟩) ⟨[], 12⟩]
+
+/-- … and with the target in another letter case, `<a><?XmL?></a>` (a canonical spelling). -/
+def xmlPiMixedTokens : List Token :=
+  [.elementStart nosp (sp "a") nosp, .elementEnd .open nosp, .pi (sp "XmL") none nosp,
    .elementEnd (.close nosp (sp "a")) nosp]
 
-/-- The builder on the tokens of `<a><?xml` TAB `x?></a>`: accepted, inside `NoReservedDecls`, and the
-    tree serialises to `<a><?xml x?></a>`. -/
-def xmlPiAccepted : Bool :=
-  match buildE .document 17 Env.fresh xmlPiTokens none with
-  | .ok p =>
-    NoReservedDecls p.env p.tree && !PlainPiTargets p.env p.tree &&
-    (match toXmlString p.env p.tree [] with
-     | .ok s' => s' == "<a><?xml x?></a>".toList
-     | _ => false)
-  | _ => false
-
-theorem xmlPi_accepted : xmlPiAccepted = true := by decide +kernel
+/-- The builder on the tokens of `<a><?xml` TAB `x?></a>`: rejected at the target (before /repo 002854f:
+    accepted, and serialised to `<a><?xml x?></a>`, which the tokenizer refuses). -/
+theorem xmlPi_rejected :
+    (match buildE .document 17 Env.fresh xmlPiTokens none with
+     | .err e _ => e == .invalidTarget "xml".toList ⟨5, 8⟩
+     | _ => false) = true ∧
+    LexOK false xmlPiMixedTokens = true ∧
+    rejection xmlPiMixedTokens = some (.invalidTarget "XmL".toList ⟨5, 8⟩) := by decide +kernel
 
 /-- A document inside both guards: default namespace, prefixed names, `xml:id` with surrounding
     blanks, predefined and numeric references, a CDATA section next to text, a comment, a PI,
